@@ -13,6 +13,23 @@ use std::cmp::Ordering;
 
 pub const DEFAULT_ID: u64 = u64::MAX;
 
+/// Expiration stamp carried by a *probe* key. The properties say nothing about it (a probe is
+/// compared, never stored), so it takes every kind of value: far future, the query time, one
+/// tick before / after it, zero, and the extremes.
+#[inline]
+pub fn probe_stamp(serial: u32, t: i32) -> i32 {
+    match serial % 8 {
+        0 => i32::MAX,
+        1 => t,
+        2 => t.saturating_sub(1),
+        3 => t.saturating_add(1),
+        4 => 0,
+        5 => i32::MIN,
+        6 => t.saturating_sub(1000),
+        _ => i32::MAX - 1,
+    }
+}
+
 /// payload of a snapshot slot: (key, expiration, id)
 pub type KSnap = VerifSnapshot<(i32, i32, u64)>;
 
@@ -204,7 +221,7 @@ impl<C: KeyColl> KeyExec<C> {
             sut: Some(C::make(hint)),
             model: Vec::new(),
             t_last: i32::MIN,
-            next_id: 1,
+            next_id: 0, // the first value is 0, i.e. equal to V::default()
             serial: 0,
             hint,
             peak_phys: 0,
@@ -541,7 +558,7 @@ impl<C: KeyColl> KeyExec<C> {
                     cb::log_enable(true);
                 }
                 ctx::phase(0);
-                let got = self.sut.as_mut().unwrap().get_value(t, KKey { k, exp: i32::MAX, tag: self.serial });
+                let got = self.sut.as_mut().unwrap().get_value(t, KKey { k, exp: probe_stamp(self.serial, t), tag: self.serial });
                 ctx::phase(1);
                 if mon.cblive {
                     self.check_cb(t, rep)?;
@@ -578,7 +595,7 @@ impl<C: KeyColl> KeyExec<C> {
                 if mon.cblive {
                     cb::log_enable(true);
                 }
-                let probe = KKey { k, exp: i32::MAX, tag: serial };
+                let probe = KKey { k, exp: probe_stamp(serial, t), tag: serial };
                 ctx::phase(0);
                 let sut = self.sut.as_mut().unwrap();
                 let (got, strict, name) = match *op {
@@ -587,6 +604,11 @@ impl<C: KeyColl> KeyExec<C> {
                     KOp::Fleb { mode, .. } => {
                         let f = move |s: KKey| -> Ordering {
                             cb::hit(CbKind::KeyComparator, s.arg(), (k, 0, serial));
+                            if s.exp <= t {
+                                // a sweep-line comparator is only meaningful for keys that are still
+                                // live (C20): on an ended key its answer is arbitrary
+                                return if (s.k ^ t) & 2 == 0 { Ordering::Greater } else { Ordering::Less };
+                            }
                             match mode {
                                 0 => s.k.cmp(&k),
                                 1 => {
@@ -826,7 +848,8 @@ pub fn profiles(thorough: bool) -> Vec<KProf> {
     ]
 }
 
-/// Generate one in-contract history. Keys are the odd numbers 1,3,..,2u-1, probes 0..=2u.
+/// Generate one in-contract history. Keys are the even numbers 0,2,..,2u-2 (0 is the key of the
+/// library's zeroed default node), probes -1..=2u-1.
 pub fn gen_history(p: &KProf, rng: &mut Rng) -> (usize, Vec<KOp>) {
     let hint = if p.hint == 8 { *rng.pick(&HINTS) } else { p.hint };
     let mut ops = Vec::with_capacity(p.len + 8);
@@ -858,9 +881,9 @@ pub fn gen_history(p: &KProf, rng: &mut Rng) -> (usize, Vec<KOp>) {
                 // next to a physically plausible key
                 let i = rng.below(p.u as u64) as i32;
                 let _ = exp;
-                2 * i + 1 + rng.range(-1, 1) as i32
+                2 * i + rng.range(-1, 1) as i32
             } else {
-                rng.range(0, 2 * p.u as i64) as i32
+                rng.range(-1, 2 * p.u as i64 - 1) as i32
             }
         };
         match kind {
@@ -900,7 +923,7 @@ pub fn gen_history(p: &KProf, rng: &mut Rng) -> (usize, Vec<KOp>) {
                 let d = if rng.chance(1, 3) { rng.range(0, 1.min(p.r as i64)) } else { rng.range(0, p.r as i64) } as i32;
                 let e = if p.immortal > 0 && rng.chance(1, p.immortal) { i32::MAX } else { t.saturating_add(d) };
                 exp[i as usize] = e;
-                ops.push(KOp::Ins { k: 2 * i + 1, exp: e, t });
+                ops.push(KOp::Ins { k: 2 * i, exp: e, t });
             }
             1 => ops.push(KOp::Get { t, k: probe(rng, &exp) }),
             2 => ops.push(KOp::Fl { t, k: probe(rng, &exp) }),
@@ -919,7 +942,7 @@ pub fn gen_history(p: &KProf, rng: &mut Rng) -> (usize, Vec<KOp>) {
             }
         }
         if p.sweep_every > 0 && ops.len() % p.sweep_every == 0 {
-            for q in 0..=2 * p.u {
+            for q in -1..2 * p.u {
                 ops.push(KOp::Get { t, k: q });
             }
         }
@@ -928,13 +951,13 @@ pub fn gen_history(p: &KProf, rng: &mut Rng) -> (usize, Vec<KOp>) {
         // the clock reaches E::max_expiration() itself: nothing is live any more, immortal entries included
         t = i32::MAX;
         for _ in 0..6 {
-            let k = rng.range(0, 2 * p.u as i64) as i32;
+            let k = rng.range(-1, 2 * p.u as i64 - 1) as i32;
             ops.push(match rng.below(5) {
                 0 => KOp::Get { t, k },
                 1 => KOp::Fl { t, k },
                 2 => KOp::Fle { t, k },
                 3 => KOp::Fleb { t, k, mode: rng.below(3) as u8 },
-                _ => KOp::Ins { k: 2 * rng.below(p.u as u64) as i32 + 1, exp: i32::MAX, t },
+                _ => KOp::Ins { k: 2 * rng.below(p.u as u64) as i32, exp: i32::MAX, t },
             });
         }
         for e in exp.iter_mut() {
